@@ -350,7 +350,14 @@ def check(prog, rep):
         text_attrs = {(dotted(n.value), n.attr) for n in walk_local(gv.node) if isinstance(n, ast.Attribute)}
         for slot, holders in slots.items():
             used = ("self", slot) in text_attrs
-            rep.ob("R16.1", f"{k}.get_variables", used, f"covers operand slot .{slot}" if used else f"does not look at operand slot .{slot}: variables occurring only there are missing from the problem", loc=gv.loc, detail=f"slot:{slot}")
+            if not used:
+                # reaches the operand another way?  (a helper on self, getattr / vars, iteration over self)
+                indirect = any((isinstance(n, ast.Call) and ((isinstance(n.func, ast.Attribute) and dotted(n.func.value) == "self") or (dotted(n.func) or "") in ("getattr", "vars", "iter", "super") or any(dotted(a_) == "self" for a_ in n.args)))
+                               or (isinstance(n, (ast.For, ast.comprehension)) and dotted(n.iter) == "self") for n in ast.walk(gv.node))
+                if indirect:
+                    rep.undecided(f"{k}.get_variables: .{slot} is not read directly; the method goes through a helper / generic access, not decided")
+                    continue
+            rep.ob("R16.1", f"{k}.get_variables", used, robust=True, msg= f"covers operand slot .{slot}" if used else f"does not look at operand slot .{slot}: variables occurring only there are missing from the problem", loc=gv.loc, detail=f"slot:{slot}")
             if used and "VectorVariable" in holders and "VectorExpression" in holders:
                 def both_kinds(fn_node, what, module, depth=0):
                     """`what` is tested with isinstance and also asked for get_variables() -- here, or in a module
